@@ -319,33 +319,93 @@ func init() {
 				c.AnchorLost("api.entry / SlotChain.Entry")
 				return
 			}
-			okOpen := false
-			for _, r := range returnsOf(apiEntry) {
-				if len(r.Results) != 2 || isNilConst(r.Results[0]) || !isNilConst(r.Results[1]) {
-					continue
-				}
-				facts := condFacts(r.Block())
-				// `if r == nil || r.Status() != Blocked { return e, nil }`: the fact sits on one of the incoming edges
-				for _, p := range r.Block().Preds {
-					facts = append(facts, edgeFact(p, r.Block())...)
-				}
-				for _, ft := range facts {
-					b, ok := ft.Cond.(*ssa.BinOp)
-					if !ok || !((b.Op == token.EQL && ft.Truth) || (b.Op == token.NEQ && !ft.Truth)) {
-						continue
-					}
-					var other ssa.Value
-					if isNilConst(b.Y) {
-						other = b.X
-					} else if isNilConst(b.X) {
-						other = b.Y
-					}
-					if call, ok := other.(*ssa.Call); ok && isStaticCallTo(call, chainEntry) {
-						okOpen = true
-					}
+			// Follow every path from the call of SlotChain.Entry under the assumption that its result is nil (tests of
+			// the result against nil are decided, everything else is explored both ways): each such path must end in a
+			// return of a non-nil entry with a nil block error, and must not hand the nil result to anything.
+			okOpen, whyNot := false, ""
+			var chainCall *ssa.Call
+			for _, ci := range callsIn(apiEntry) {
+				if call, ok := ci.(*ssa.Call); ok && isStaticCallTo(ci, chainEntry) {
+					chainCall = call
 				}
 			}
-			c.Check(okOpen, fnKey(apiEntry)+" / nil-result-passes", apiEntry.Pos(), "a nil TokenResult (internal panic recovered in SlotChain.Entry) must be mapped to a passed entry")
+			if chainCall == nil {
+				c.AnchorLost("call of SlotChain.Entry in api.entry")
+				return
+			}
+			{
+				isRes := func(v ssa.Value) bool { return resolve(v) == ssa.Value(chainCall) }
+				seenB := map[*ssa.BasicBlock]bool{}
+				nret := 0
+				var walk func(b *ssa.BasicBlock, from int)
+				walk = func(b *ssa.BasicBlock, from int) {
+					for _, ins := range b.Instrs[from:] {
+						switch x := ins.(type) {
+						case ssa.CallInstruction:
+							cc := x.Common()
+							uses := cc.IsInvoke() && isRes(cc.Value)
+							for _, a := range cc.Args {
+								if isRes(a) {
+									uses = true
+								}
+							}
+							if uses && whyNot == "" {
+								whyNot = "the nil result is passed to " + calleeDesc(x) + " at " + c.P.Pos(x.Pos())
+							}
+						case *ssa.Return:
+							nret++
+							if len(x.Results) != 2 || isNilConst(x.Results[0]) || !isNilConst(x.Results[1]) {
+								if whyNot == "" {
+									whyNot = "with a nil result the return at " + c.P.Pos(x.Pos()) + " does not hand out a passed entry"
+								}
+							}
+						case *ssa.If:
+							takeT, takeF := true, true
+							cond, pos := stripNot(x.Cond, true)
+							if bo, ok := cond.(*ssa.BinOp); ok && (bo.Op == token.EQL || bo.Op == token.NEQ) {
+								var other ssa.Value
+								if isNilConst(bo.Y) {
+									other = bo.X
+								} else if isNilConst(bo.X) {
+									other = bo.Y
+								}
+								if other != nil && isRes(other) {
+									isNil := bo.Op == token.EQL // value of the comparison when the result is nil
+									if !pos {
+										isNil = !isNil
+									}
+									takeT, takeF = isNil, !isNil
+								}
+							}
+							if takeT && !seenB[b.Succs[0]] {
+								seenB[b.Succs[0]] = true
+								walk(b.Succs[0], 0)
+							}
+							if takeF && !seenB[b.Succs[1]] {
+								seenB[b.Succs[1]] = true
+								walk(b.Succs[1], 0)
+							}
+							return
+						}
+					}
+					if _, isIf := b.Instrs[len(b.Instrs)-1].(*ssa.If); !isIf {
+						for _, s := range b.Succs {
+							if !seenB[s] {
+								seenB[s] = true
+								walk(s, 0)
+							}
+						}
+					}
+				}
+				walk(chainCall.Block(), instrIndex(chainCall)+1)
+				okOpen = whyNot == "" && nret > 0
+			}
+			c.Check(okOpen, fnKey(apiEntry)+" / nil-result-passes", apiEntry.Pos(), "a nil TokenResult (internal panic recovered in SlotChain.Entry) must be mapped to a passed entry%s", func() string {
+				if whyNot != "" {
+					return ": " + whyNot
+				}
+				return ""
+			}())
 			// recover closure of SlotChain.Entry must not re-panic and the function's recover result is nil (named result absent => nil)
 			for _, gfn := range chainEntry.AnonFuncs {
 				if !callsRecover(gfn) {
